@@ -27,7 +27,7 @@ DEFAULTS = dict(
     MaxAllocs=6, MaxLive=4, MaxLen=5,
     ByteSizes=[0, 5, 16, 24, 40], TypeSet=[(8, 8), (16, 16)], AlignedSet=[((8, 8), 5)],
     OwnedToo=False, MinSegSet=[8, 24], IncSet=[], RewindSet=[], TruncSet=[], WithClear=False, WithLeak=False,
-    Emit=False, Prefix=[], WithReopen=False, WithClone=False, WithFit=False,
+    Emit=False, Prefix=[], WithReopen=False, WithClone=False, WithFit=False, HistView=False,
 )
 
 
@@ -59,7 +59,7 @@ def write_mcseq(workdir, name, **params):
     with open(cfg, "w") as f:
         f.write("SPECIFICATION Spec\nVIEW View\nCONSTANTS\n")
         for k in ["Cap", "Reserved", "Unify", "Kind", "Backend", "MinSeg0", "FixedRewind", "MaxAllocs", "MaxLive",
-                  "MaxLen", "OwnedToo", "WithClear", "WithLeak", "WithReopen", "WithClone", "WithFit", "Emit"]:
+                  "MaxLen", "OwnedToo", "WithClear", "WithLeak", "WithReopen", "WithClone", "WithFit", "HistView", "Emit"]:
             f.write("  %s = %s\n" % (k, tla_val(p[k])))
         f.write("  ByteSizes <- mcBytes\n  TypeSet <- mcTypes\n  AlignedSet <- mcAligned\n  MinSegSet <- mcMinSeg\n"
                 "  IncSet <- mcInc\n  RewindSet <- mcRewind\n  TruncSet <- mcTrunc\n  Prefix <- mcPrefix\n")
